@@ -6,7 +6,7 @@ from octoprint_excluderegion.GcodeParser import GcodeParser
 
 PID = 'C18'
 TRUSTED = ['Tier H scanner coq/Model/Lexer.v tied to the real REGEX_GCODE_LINE / GcodeParser by exhaustive comparison of all 13 groups and the '
-           'derived attributes on every string up to the stated length over a 13-symbol class alphabet, plus random long lines (vm_compute digests)',
+           'derived attributes on every string up to the stated length over a 14-symbol class alphabet, plus random long lines (vm_compute digests)',
            'modelled, not verified: Python\'s `re` engine (the scanner re-implements the regex\'s priority order and backtracking)']
 ASSUMPTIONS = ['lossless / progress are proved for all strings; stability of the normalised command string and the checksum round trip are '
                'checked on the implementation by the oracle of this check (exhaustive small scope + random), not yet proved in Coq']
@@ -17,8 +17,8 @@ def correspondence(ctx):
     total, dis = LS.exhaustive(maxlen)
     lines = LS.random_lines(ctx.rng, ctx.n(1500, 20000))
     dis += LS.explicit(lines, 'c18rnd')
-    return dict(evaluations=total + len(lines), distinct_nontrivial=total + len(set(lines)), shards=1 + 13 * (maxlen - 1), exhaustive=True,
-                rule='ALL strings of length <= %d over the class alphabet {space,N,G,T,X,1,.,*,;,backslash,CR,LF,@} (%d strings; exhaustive) '
+    return dict(evaluations=total + len(lines), distinct_nontrivial=total + len(set(lines)), shards=1 + 14 * (maxlen - 1), exhaustive=True,
+                rule='ALL strings of length <= %d over the class alphabet {space,N,G,T,X,1,0,.,*,;,backslash,CR,LF,@} (%d strings; exhaustive) '
                      'plus %d random long lines built from G-code fragments; every string is distinct; all are non-trivial inputs of the scanner' % (maxlen, total, len(lines)),
                 samples=[repr(l) for l in lines[:4]], disagreements=dis[:5])
 
